@@ -340,3 +340,129 @@ def spec_fails(spec, oplist, clause, query):
         if c == clause and core.canon_json(q) == qj:
             return (e, g)
     return None
+
+
+# ---------------------------------------------------------------------------------
+# observe / mutate / observe: queries must be pure observers (no memo surviving a mutation)
+#
+# A spec that supports this pass provides
+#   probes()                 list of JSON-able single-query labels
+#   probe(obj, label)        -> comparable result of that one query on the live object
+#   ref_probe(model, label)  -> what the reference model answers
+#   apply(obj, op)           execute one operation on the live object (in place)
+
+
+def judge_interleaved(spec, oplist, probe, then):
+    """oplist; probe; then-op; the same probe again (and once more).  -> [(clause, expected, got)]"""
+    clause = spec.prop + ".interleaved"
+    try:
+        obj = spec.build_ops(oplist)
+        r1 = spec.probe(obj, probe)
+        if then is not None:
+            spec.apply(obj, then)
+        r2 = spec.probe(obj, probe)
+        r3 = spec.probe(obj, probe)
+    except Exception as e:
+        return [(clause, "no exception", "%s: %s" % (type(e).__name__, e))]
+    e1 = spec.ref_probe(spec.ref_ops(oplist), probe)
+    e2 = spec.ref_probe(spec.ref_ops(list(oplist) + ([then] if then is not None else [])), probe)
+    if _inter_bad(r1, r2, r3, e1, e2):
+        return [(clause, {"before": e1, "after": e2, "again": e2}, {"before": r1, "after": r2, "again": r3})]
+    return []
+
+
+def _inter_bad(r1, r2, r3, e1, e2):
+    """an expected answer of None = the reference leaves this query undefined in that state (not compared)"""
+    return (e1 is not None and r1 != e1) or (e2 is not None and (r2 != e2 or r3 != e2)) or (e2 is None and r2 != r3)
+
+
+def _inter_task(task):
+    spec = _SPEC
+    prefix, L = task
+    import itertools
+
+    n, fails = 0, []
+    probes = spec.probes()
+    thens = [None] + list(range(len(spec.ops)))
+    for tail in itertools.product(range(len(spec.ops)), repeat=L - len(prefix)):
+        h = prefix + tail
+        oplist = [spec.ops[i] for i in h]
+        model0 = spec.ref_ops(oplist)
+        for ti in thens:
+            then = None if ti is None else spec.ops[ti]
+            model1 = model0 if ti is None else spec.ref_ops(oplist + [then])
+            for p in probes:
+                n += 1
+                bad = None
+                try:
+                    obj = spec.build_ops(oplist)
+                    r1 = spec.probe(obj, p)
+                    if then is not None:
+                        spec.apply(obj, then)
+                    r2 = spec.probe(obj, p)
+                    r3 = spec.probe(obj, p)
+                    e1, e2 = spec.ref_probe(model0, p), spec.ref_probe(model1, p)
+                    if _inter_bad(r1, r2, r3, e1, e2):
+                        bad = ({"before": e1, "after": e2, "again": e2}, {"before": r1, "after": r2, "again": r3})
+                except Exception as e:
+                    bad = ("no exception", "%s: %s" % (type(e).__name__, e))
+                if bad:
+                    fails.append((h, ti, p, bad[0], bad[1]))
+    return n, fails
+
+
+def interleavings(spec, chk, name, L):
+    """Every history of length <= L, then every (single probe; one more operation or none; the same probe twice)."""
+    global _SPEC
+    _SPEC = spec
+    nops = len(spec.ops)
+    tasks = []
+    for l in range(0, L + 1):
+        if l <= 1:
+            tasks.append(((), l))
+        else:
+            tasks.extend(((a,), l) for a in range(nops))
+    total, failures = 0, []
+    for n, fails in core.pmap(_inter_task, tasks, chk.seed):
+        total += n
+        failures.extend(fails)
+    clause = spec.prop + ".interleaved"
+    chk.cov["parts"][name] = {"kind": "observe-mutate-observe", "ops": nops, "probes": len(spec.probes()), "max_len": L,
+                              "executions": total, "failing": len(failures)}
+    chk.add("transitions", total * 2)
+    chk.add("traces_validated_against_impl", total)
+    chk.add("evaluations", total * 3)
+    chk.clause(clause, checked=total, nontrivial=total, failed=len(failures))
+    failures.sort(key=lambda f: (len(f[0]), f[0], -1 if f[1] is None else f[1], core.canon_json(f[2])))
+    seen = set()
+    for (h, ti, p, exp, got) in failures[:4000]:
+        cur = [spec.ops[i] for i in h]
+        then = None if ti is None else spec.ops[ti]
+        # greedy deletion of history operations (re-executed)
+        changed = True
+        res = (exp, got)
+        while changed:
+            changed = False
+            if then is not None:
+                r = judge_interleaved(spec, cur, p, None)
+                if r:
+                    then, res, changed = None, (r[0][1], r[0][2]), True
+                    continue
+            for i in range(len(cur)):
+                cand = cur[:i] + cur[i + 1:]
+                r = judge_interleaved(spec, cand, p, then)
+                if r:
+                    cur, res, changed = cand, (r[0][1], r[0][2]), True
+                    break
+        w = {"ops": cur, "probe": p, "then": then}
+        w.update(spec.witness_fields())
+        k = core.canon_json(w)
+        if k in seen:
+            chk.cov["dominated_failures"] += 1
+            continue
+        seen.add(k)
+        if len(seen) > MAX_SHRINK:
+            chk.cov["dominated_failures"] += 1
+            continue
+        chk.witness(clause, w, res[0], res[1])
+    return total
